@@ -1,12 +1,15 @@
-(* C20: Layout, comments and redundant parentheses never change meaning (lexer part).
+(* C20: Layout, comments and redundant parentheses never change meaning .
 
    A '#' comment ends at the next CR or LF and nowhere else (any bytes, including multi-byte and invalid
    UTF-8, quotes and keywords inside); nothing between the quotes of a string literal is layout; any
    amount of any of the eight whitespace characters between tokens produces no token.  Each statement
-   holds for every chunking of the input (the *_chunked forms).  That redundant parentheses emit no code
-   is part of T2: the AST of Spec/Syntax.v has no parenthesis node, tested by t2check on every program. *)
+   holds for every chunking of the input (the *_chunked forms).  That redundant parentheses
+   change nothing follows from T2 (proved): the tree of Spec/Syntax.v has no parenthesis node
+   (C20_paren_is_transparent) and two token lists with the same tree compile to the same program
+   (C20_same_tree_same_program). *)
 From BCL Require Import Model.Lexer Lib.Strconv Proofs.LexerProofs Proofs.LayoutProofs.
 Open Scope N_scope.
+From BCL Require Import Model.Compile Spec.Syntax Proofs.ParserInvProofs Proofs.T2Proofs Proofs.Language.
 
 Theorem C20_comment_extent : forall body e rest c fuel,
   pending c = [] -> after c = body ++ e :: rest -> (e = 10 \/ e = 13) ->
@@ -90,6 +93,30 @@ Print Assumptions C20_space_run_chunked.
 Theorem C20_ws_chars : ws_chars = map encode_rune [32; 9; 11; 12; 10; 13; 133; 160].
 Proof. first [exact LayoutProofs.ws_chars_encode | apply LayoutProofs.ws_chars_encode]. Qed.
 Print Assumptions C20_ws_chars.
+
+(* two token lists with the same tree compile to the same code, constants and identifier table *)
+Theorem C20_same_tree_same_program : forall ts1 ts2 p,
+  lex_shape ts1 -> lex_shape ts2 ->
+  ast_program ts1 = Some p -> ast_program ts2 = Some p ->
+  hadError (compile_program p) = false ->
+  hadError (parse_tokens ts1) = false /\ hadError (parse_tokens ts2) = false /\
+  code (parse_tokens ts1) = code (parse_tokens ts2) /\
+  consts (parse_tokens ts1) = consts (parse_tokens ts2) /\
+  identRefs (parse_tokens ts1) = identRefs (parse_tokens ts2).
+Proof. first [exact Language.same_tree_same_program | apply Language.same_tree_same_program]. Qed.
+Print Assumptions C20_same_tree_same_program.
+
+(* '(' e ')' in operand position contributes exactly the tree of e: parentheses leave no node *)
+Theorem C20_paren_is_transparent : forall f q lp r e rp r',
+  ttyp lp = tLPAREN -> ttyp rp = tRPAREN ->
+  pexpr f lvl_assign r = Some (e, rp :: r') ->
+  pexpr (S f) q (lp :: r) =
+    match ploop f q e r' with
+    | Some (e', r2) => if (q <=? lvl_assign)%nat && tok_eqb (hd_typ r2) tEQ then None else Some (e', r2)
+    | None => None
+    end.
+Proof. first [exact Language.paren_is_transparent | apply Language.paren_is_transparent]. Qed.
+Print Assumptions C20_paren_is_transparent.
 
 Example C20_example :
   map ttyp (fst (lex [bs "print" ++ [194; 160; 11; 12] ++ bs "1 # not ; a ( token" ++ [13] ++ bs "print ""# ; ( "" "])) = [tPRINT; tINT; tPRINT; tSTR; tEOF].
